@@ -167,6 +167,26 @@ def run_hist(case):
             elif k == "iadd":
                 t = tensors[ev[1]]
                 t += 1.0
+            elif k in ("setitem_arr", "imul_arr", "out_tensor"):
+                t, a1 = tensors[ev[1]], arrays[ev[2]]
+                if t.shape == a1.shape:
+                    if k == "setitem_arr":
+                        t[...] = a1
+                    elif k == "imul_arr":
+                        t *= a1
+                    else:
+                        mg.add(a1, 1.0, out=t)
+                    used.add(ev[2])
+                    if ev[1] in tsrc:
+                        used.add(tsrc[ev[1]])
+            elif k == "setshape":
+                t = tensors[ev[1]]
+                if t.size == 4 and t.shape != (2, 2):
+                    t.shape = (2, 2)
+                elif t.size == 4:
+                    t.shape = (4,)
+                elif t.size == 2:
+                    t.shape = (2, 1) if t.shape != (2, 1) else (2,)
             elif k == "backward":
                 tensors[ev[1]].backward()
             elif k == "clear":
